@@ -791,12 +791,37 @@ fn translate_let_pattern(
             make_apply("code_let", vec![name_lit, translated_val, translated_body])
         }
         Pattern::Tuple(pats) => translate_let_tuple_pattern(pats, translated_val, translated_body),
-        Pattern::Record(_) | Pattern::Error => {
+        Pattern::Record(fields) => {
+            translate_let_record_pattern(fields, translated_val, translated_body)
+        }
+        Pattern::Error => {
             // Fallback: use the primary symbol.
             let name_lit = pattern_to_string_literal(pat);
             make_apply("code_let", vec![name_lit, translated_val, translated_body])
         }
     }
+}
+
+/// Translate a `let` with a record pattern: the value is bound to a temp and
+/// every field pattern is bound to the corresponding field access of it,
+/// i.e. `let {k = p, ..} = v; body` becomes `let t = v; let p = t.k; ..; body`.
+fn translate_let_record_pattern(
+    fields: &[(Symbol, Pattern)],
+    translated_val: ExprNodeId,
+    translated_body: ExprNodeId,
+) -> ExprNodeId {
+    let tmp = fresh_desugar_name();
+    let body = fields.iter().rev().fold(translated_body, |body, (key, pat)| {
+        let field = make_apply(
+            "code_field_access",
+            vec![make_apply_str("code_var", tmp), sym_to_string_literal(*key)],
+        );
+        translate_let_pattern(pat, field, body)
+    });
+    make_apply(
+        "code_let",
+        vec![sym_to_string_literal(tmp), translated_val, body],
+    )
 }
 
 // Thread-local counter for generating unique temp variable names.
@@ -826,10 +851,10 @@ fn translate_let_tuple_pattern(
 ) -> ExprNodeId {
     // Determine the top-level names and collect any nested sub-pattern work.
     let mut top_names: Vec<ExprNodeId> = Vec::with_capacity(pats.len());
-    // (position, sub_patterns, temp_name) for nested tuples.
-    let mut nested: Vec<(usize, &[Pattern], Symbol)> = Vec::new();
+    // (sub_pattern, temp_name) for nested tuples and records.
+    let mut nested: Vec<(&Pattern, Symbol)> = Vec::new();
 
-    for (i, pat) in pats.iter().enumerate() {
+    for pat in pats.iter() {
         match pat {
             Pattern::Single(name) => {
                 top_names.push(sym_to_string_literal(*name));
@@ -837,12 +862,12 @@ fn translate_let_tuple_pattern(
             Pattern::Placeholder => {
                 top_names.push(sym_to_string_literal("_".to_symbol()));
             }
-            Pattern::Tuple(sub_pats) => {
+            Pattern::Tuple(_) | Pattern::Record(_) => {
                 let tmp = fresh_desugar_name();
                 top_names.push(sym_to_string_literal(tmp));
-                nested.push((i, sub_pats.as_slice(), tmp));
+                nested.push((pat, tmp));
             }
-            Pattern::Record(_) | Pattern::Error => {
+            Pattern::Error => {
                 let name = pattern_to_symbol(pat);
                 top_names.push(sym_to_string_literal(name));
             }
@@ -853,9 +878,9 @@ fn translate_let_tuple_pattern(
     // For each nested tuple (processed in reverse to build inside-out),
     // wrap: translate_let_tuple_pattern(sub_pats, code_var(tmp), current_body)
     let mut body = translated_body;
-    for (_i, sub_pats, tmp) in nested.into_iter().rev() {
+    for (sub_pat, tmp) in nested.into_iter().rev() {
         let tmp_var = make_apply_str("code_var", tmp);
-        body = translate_let_tuple_pattern(sub_pats, tmp_var, body);
+        body = translate_let_pattern(sub_pat, tmp_var, body);
     }
 
     let names_arr = Expr::ArrayLiteral(top_names).into_id_without_span();
